@@ -26,6 +26,7 @@ pub struct IrStats {
 fn ty_residue(t: &Ty) -> Option<&'static str> {
     match t {
         Ty::TVar(_) => Some("inference-variable"),
+        Ty::TStruct { name } | Ty::TEnum { name } if name == "Self" => Some("unsubstituted-Self"),
         Ty::TParam { .. } => Some("type-parameter"),
         Ty::TApp { ty, args } => {
             if !args.is_empty() {
@@ -70,7 +71,7 @@ fn dup_names<'a>(stage: &str, names: impl Iterator<Item = &'a String>, out: &mut
 fn debug_residue(stage: &str, name: &str, dbg: &str, out: &mut Vec<Finding>) {
     // (the wildcard array length legitimately occurs in the types of the polymorphic array builtins
     // referenced from bodies; it is checked on let-bound values in the ANF walk instead)
-    for (needle, what) in [("TParam {", "type-parameter"), ("TVar(", "inference-variable")] {
+    for (needle, what) in [("TParam {", "type-parameter"), ("TVar(", "inference-variable"), ("TStruct(Self)", "unsubstituted-Self"), ("TEnum(Self)", "unsubstituted-Self")] {
         if dbg.contains(needle) {
             out.push(Finding { sig: format!("residue:{}:{}:body", stage, what), summary: format!("{}: the body of {} mentions a {} after monomorphisation", stage, name, what) });
         }
